@@ -333,12 +333,16 @@ class Verdicts:
             print("KNOWN-FINDING: property=%s %s [%s%s] %s" % (
                 self.pid, k.get("what", kind), kind, ("@" + where) if where else "", detail))
         seen = set()
+        perkind = {}
         os.makedirs(REPLAYS, exist_ok=True)
         for kind, where, detail, replay in self.violations:
             key = (kind, where)
             if key in seen:
                 continue
             seen.add(key)
+            perkind[kind] = perkind.get(kind, 0) + 1
+            if perkind[kind] > 3:
+                continue      # at most three replay files per witness kind; the total is in the evidence
             body = json.dumps({"property": self.pid, "kind": kind, "where": where, "detail": detail,
                                "replay": replay}, indent=1, sort_keys=True, default=str)
             h = hashlib.sha1(body.encode()).hexdigest()[:10]
